@@ -8,6 +8,19 @@ props = [json.loads(l) for l in open(os.path.join(V, 'properties.jsonl'))]
 TB = ("trusted base: rustc's MIR construction and Instance resolution for the real build (nightly 1.97, "
       "mir-opt-level 0, overflow checks on), the fact extractor /verif/driver, std/rpds/arcstr behaving as documented")
 
+# sentences added after the audit rounds (rules written for defects found on the unchanged tree)
+EXTRA = {
+ 'C01': " R5 also: what InitLocal appends is slot i itself (gaps left by a `local` that did not execute are filled first).",
+ 'C02': " R3 also: the build-time steps of a meta block leave no entries on the reverse log (the log is cut back to the mark taken when the block opened).",
+ 'C04': " R4: no public method takes a position inside the backing buffer - a range bound computed from a position argument adds range.start (seek, substr like read, peek, split_at); R3 also: slice() returning None is an error, never a fallback to raw bytes.",
+ 'C06': " The cursor counts bits of the value: the move is bounded by input.len(), open-bitstr starts at the constant 0 (decided from the constant's initialiser), and a read advances the current offset by len() of the peeked slice with an overflow check.",
+ 'C10': " Also: heap cells allocated while a source is built are a rolled-back resource; program code runs at build time only in a sealed meta context or after the source was accepted (user-defined immediate words are a listed known finding); a halted program's run-time stacks are dropped.",
+ 'C11': " Also: the floor of a meta context is the current depth (nested blocks inheriting the outer floor is a listed known finding, pinned by an existing test); nothing permutes the dictionary, so the purge keeps the order of surviving constants; an instruction that patches itself at run time (the `late` stub) does so for good only outside meta evaluation.",
+ 'C15': " Also: a user-defined immediate word returns to the end of the code, not into the half-built program, and the builder's ip is restored afterwards.",
+ 'C16': " R3 (necessary conditions of print/read-back visible in the code): radix formats are applied to an unsigned magnitude; every radix the printer emits for integers has a literal form in the lexer; the collected digits reach from_str_radix only behind a test of that text (it accepts a sign of its own).",
+ 'C17': " Also: the source a token belongs to is found by identity of its buffer, not by comparing source texts.",
+}
+
 CLAIMS = {
  'C08': dict(
    technique="panic-site enumeration over MIR (Assert terminators + precondition-carrying std calls + explicit panics) with discharge by constants, a difference-bound (zone) domain over dominating guards, type/definition bounds, length provenance, and a reviewed invariant table whose required guards are re-checked; user-controlled operands tracked by inter-procedural taint",
@@ -172,6 +185,7 @@ for p in props:
     pid = p['id']
     if pid in CLAIMS:
         c = CLAIMS[pid]
+        c = dict(c, text=c['text'] + EXTRA.get(pid, ''))
         checks.append({
             'property_id': pid,
             'quick_cmd': './check %s --tier quick' % pid,
